@@ -385,7 +385,7 @@ def plan(tier, seed):
     if tier == "quick":
         t, b, n = 1500, 400, 8
     else:
-        t, b, n = 40000, 8000, 16
+        t, b, n = 15000, 4000, 16
     tasks = []
     for _ in range(n):
         tasks.append({"task": "text", "examples": t})
